@@ -1,0 +1,54 @@
+//go:build verif
+// +build verif
+
+package core
+
+import "gopkg.in/src-d/go-git.v4/plumbing/object"
+
+// VerifAction mirrors runAction.
+type VerifAction struct {
+	Action int
+	Commit *object.Commit
+	Items  []int
+}
+
+// VerifPrepareRunPlan exports prepareRunPlan.
+func VerifPrepareRunPlan(commits []*object.Commit, hibernationDistance int) []VerifAction {
+	plan := prepareRunPlan(commits, hibernationDistance, false)
+	res := make([]VerifAction, len(plan))
+	for i, p := range plan {
+		res[i] = VerifAction{p.Action, p.Commit, p.Items}
+	}
+	return res
+}
+
+// VerifItems returns the resolved items.
+func (pipeline *Pipeline) VerifItems() []PipelineItem {
+	return pipeline.items
+}
+
+// VerifPlanStages runs the planner once and returns the plan after generatePlan,
+// after collectGarbage and after insertHibernateBoot (same map-order choices in all three).
+func VerifPlanStages(commits []*object.Commit, hibernationDistance int) (base, gc, hib []VerifAction) {
+	hashes, dag := buildDag(commits)
+	leaveRootComponent(hashes, dag)
+	mergedDag, mergedSeq := mergeDag(hashes, dag)
+	orderNodes := bindOrderNodes(mergedDag)
+	collapseFastForwards(orderNodes, hashes, mergedDag, dag, mergedSeq)
+	plan := generatePlan(orderNodes, hashes, mergedDag, dag, mergedSeq)
+	conv := func(plan []runAction) []VerifAction {
+		res := make([]VerifAction, len(plan))
+		for i, p := range plan {
+			res[i] = VerifAction{p.Action, p.Commit, append([]int{}, p.Items...)}
+		}
+		return res
+	}
+	base = conv(plan)
+	plan = collectGarbage(plan)
+	gc = conv(plan)
+	if hibernationDistance > 0 {
+		plan = insertHibernateBoot(plan, hibernationDistance)
+	}
+	hib = conv(plan)
+	return
+}
